@@ -79,6 +79,14 @@ def overlap_case(draw):
     extent = geom.diameter(pos)
     side = max(extent + 3.0, 2 * d_all + 4 * atol + 1.0)
     cell = np.diag([side, side * draw(st.sampled_from([1.0, 1.3])), side * draw(st.sampled_from([1.0, 1.6]))])
+    tilted = draw(hperm.integers(0, 2)) == 0
+    if tilted:
+        # the same box sheared (any signs), enlarged so that every perpendicular width is still at least `side`
+        t = [draw(st.sampled_from([-0.45, -0.2, 0.0, 0.2, 0.45])) for _ in range(3)]
+        if not any(t):
+            t[0] = 0.3
+        cell = np.array([[cell[0, 0], 0, 0], [t[0] * cell[0, 0], cell[1, 1], 0], [t[1] * cell[0, 0], t[2] * cell[1, 1], cell[2, 2]]])
+        cell = cell * max(1.0, side / geom.perp_widths(cell).min()) * (1 + 1e-9)
     shift = [draw(st.floats(0, side)) for _ in range(3)]
     spos = geom.wrap(cell, pos + np.array(shift))
     nby = draw(hperm.integers(0, 3))
@@ -108,7 +116,8 @@ def overlap_case(draw):
             "bonds": bonds, "rcharges": [round(repl.R_TAG0 + 0.01 * j, 6) for j in range(len(rp["pos"]))],
             "rgroups": [4] * len(rp["pos"]), "by_copy": by_copy, "prime": draw(st.booleans()),
             "call": draw(st.sampled_from(["keyword", "keyword", "positional"])),
-            "meta": {"kind": kind, "repl_kind": rp["kind"]}}
+            "pcells": [draw(st.sampled_from([None, None, None, "small", "big"])), draw(st.sampled_from([None, None, None, "small", "tilted"]))],
+            "meta": {"kind": kind, "repl_kind": rp["kind"], "cell": "tilted" if tilted else "ortho"}}
 
 
 def build_structure(case):
@@ -290,6 +299,7 @@ def oracle(case, stats):
         raise Violation("overlap-not-refused", "second call on the same objects with ignore=False returned a structure although "
                         "matches %r remove an atom twice" % (keys,))
     stats.count("kind:" + case["meta"]["kind"])
+    stats.count("cell:" + case["meta"].get("cell", "ortho"))
     stats.count("repl:" + case["meta"]["repl_kind"])
     stats.count("replace_all:%s" % case["replace_all"])
     stats.count("ignore:%s" % case["ignore"])
